@@ -14,6 +14,7 @@ import (
 	"log"
 	"os"
 	"path/filepath"
+	"regexp"
 	"sort"
 	"strconv"
 	"strings"
@@ -358,25 +359,22 @@ func vfRunOne(t *testing.T, sc *vfScenario, dir string, prefix []int) *vsched.Ex
 // vfGeneric removes numbers and hashes from a message so that it can serve
 // as a violation class.
 func vfGeneric(s string) string {
-	var b strings.Builder
-	prevDigit := false
-	for _, r := range s {
-		if r >= '0' && r <= '9' {
-			if !prevDigit {
-				b.WriteByte('N')
-			}
-			prevDigit = true
-			continue
-		}
-		prevDigit = false
-		b.WriteRune(r)
+	s = vfKeyRe.ReplaceAllString(s, "$1/H")
+	s = vfHexRe.ReplaceAllString(s, "H")
+	s = vfNumRe.ReplaceAllString(s, "N")
+	s = vfListRe.ReplaceAllString(s, "[..]")
+	if len(s) > 100 {
+		s = s[:100]
 	}
-	out := b.String()
-	if len(out) > 90 {
-		out = out[:90]
-	}
-	return out
+	return s
 }
+
+var (
+	vfKeyRe  = regexp.MustCompile(`\b(cas|ac|raw)/[0-9a-zA-Z.]+`)
+	vfHexRe  = regexp.MustCompile(`\b[0-9a-f]{6,}\b`)
+	vfNumRe  = regexp.MustCompile(`-?[0-9]+`)
+	vfListRe = regexp.MustCompile(`\[[^\]]*\]`)
+)
 
 func vfRunEvictorInline(c *diskCache) {
 	for {
